@@ -128,7 +128,16 @@ func runErrCtor(r *core.Run) {
 					if fn.Signature.Recv() != nil {
 						recv = fn.Params[0].Name()
 					}
-					r.Check(recv != "" && arg == recv+".r", fmt.Sprintf("%s passes its own cursor", fnLabel(fn)), c.Pos(), arg, fmt.Sprintf("NewErrorLexer is called with %s, not the reporting lexer's own cursor field", arg))
+					// the receiver's own cursor: a field of the receiver whose type is *parse.Input
+					own := false
+					if u, isU := c.Call.Args[0].(*ssa.UnOp); isU && u.Op == token.MUL && recv != "" {
+						if fa, isFA := u.X.(*ssa.FieldAddr); isFA && fa.X == ssa.Value(fn.Params[0]) {
+							if tp, okT := modTypePath(u.Type()); okT && tp == "parse.Input" {
+								own = true
+							}
+						}
+					}
+					r.Check(own, fmt.Sprintf("%s passes its own cursor", fnLabel(fn)), c.Pos(), arg, fmt.Sprintf("NewErrorLexer is called with %s, not the reporting lexer's own cursor field", arg))
 				case newErr:
 					if fn == newErrLex {
 						continue
@@ -150,15 +159,15 @@ func runErrCtor(r *core.Run) {
 									neg = a
 								}
 							}
-							want = strings.HasSuffix(pos, ".r.Offset()") && strings.HasPrefix(neg, "len(") && strings.HasSuffix(neg, ".data)")
+							want = strings.HasSuffix(pos, ".Offset()") && strings.HasPrefix(neg, "len(") && strings.Contains(neg, ".") && strings.HasSuffix(neg, ")")
 						}
 						r.Check(want, key, c.Pos(), off.String(), fmt.Sprintf("js.Parse reports offset `%s`; expected cursor Offset() minus the length of the current token", off))
 					case "(*css.Parser).Err":
 						want := len(off.T) == 1 && off.C == 0
-						for a := range off.T {
-							if !strings.HasSuffix(a, ".errPos") {
-								want = false
-							}
+						if u, isU := c.Call.Args[1].(*ssa.UnOp); !isU || u.Op != token.MUL {
+							want = false
+						} else if fa, isFA := u.X.(*ssa.FieldAddr); !isFA || fa.X != ssa.Value(fn.Params[0]) {
+							want = false
 						}
 						r.Check(want, key, c.Pos(), off.String(), "css.Parser.Err does not report the recorded errPos")
 					default:
@@ -172,31 +181,82 @@ func runErrCtor(r *core.Run) {
 	// 5. css errPos is only ever assigned the cursor's Offset() (possibly minus a token length)
 	if sp := r.Prog.SSAPkg("css"); sp != nil {
 		n := 0
+		// the error-position field: the int field of css.Parser that Err() hands to NewError
+		posField := ""
+		if ef := r.Prog.SSAFunc("css", "Parser", "Err"); ef != nil {
+			for _, b := range ef.Blocks {
+				for _, in := range b.Instrs {
+					if c, ok := in.(*ssa.Call); ok {
+						if f := c.Call.StaticCallee(); f != nil && f.Name() == "NewError" && len(c.Call.Args) >= 2 {
+							if u, ok := c.Call.Args[1].(*ssa.UnOp); ok && u.Op == token.MUL {
+								if fa, ok := u.X.(*ssa.FieldAddr); ok {
+									posField = fieldName(fa.X.Type(), fa.Field)
+								}
+							}
+						}
+					}
+				}
+			}
+		}
+		if posField == "" {
+			r.BrokenAnchor("css.Parser.Err passes an error-position field to NewError")
+		}
 		for _, fn := range allModuleFuncs(r) {
 			if fnPkg(fn) != sp.Pkg {
 				continue
 			}
 			for _, st := range allStores(fn) {
-				if !strings.HasSuffix(canon(st.Addr), ".errPos") {
+				if posField == "" || !strings.HasSuffix(canon(st.Addr), "."+posField) {
 					continue
 				}
 				n++
 				l := linOf(st.Val)
-				ok := false
-				for a, cf := range l.T {
-					if strings.HasSuffix(a, ".r.Offset()") && cf == 1 {
-						ok = true
-					}
-				}
-				if !ok {
-					// phi of offsets (parseDeclaration's `offset`): accept if every leaf is Offset()-based or zero-tested
-					ok = offsetDerived(st.Val, 0)
-				}
+				// the cursor's Offset() (possibly minus a token length), directly, through a phi of such values, or
+				// through a parameter that receives such a value at every call site
+				ok := offsetDerivedR(r, st.Val, 0)
 				r.Check(ok, fmt.Sprintf("%s errPos from cursor offset", fnLabel(fn)), st.Pos(), l.String(), "errPos is assigned something other than a cursor Offset()-derived value")
 			}
 		}
 		r.Floor("css errPos assignments", n, 7)
 	}
+}
+
+func offsetDerivedR(r *core.Run, v ssa.Value, depth int) bool {
+	if depth > 5 {
+		return false
+	}
+	switch x := v.(type) {
+	case *ssa.Phi:
+		for _, e := range x.Edges {
+			if e == v {
+				continue
+			}
+			if c, ok := e.(*ssa.Const); ok && ssaIntConst(c) && c.Int64() == 0 {
+				continue
+			}
+			if !offsetDerivedR(r, e, depth+1) {
+				return false
+			}
+		}
+		return true
+	case *ssa.Parameter:
+		args, ok := argsOfParam(r, x)
+		if !ok {
+			return false
+		}
+		for _, a := range args {
+			if !offsetDerivedR(r, a, depth+1) {
+				return false
+			}
+		}
+		return true
+	}
+	for a, cf := range linOf(v).T {
+		if strings.HasSuffix(a, ".Offset()") && cf == 1 {
+			return true
+		}
+	}
+	return false
 }
 
 func offsetDerived(v ssa.Value, depth int) bool {
